@@ -13,9 +13,9 @@ from vlib import NCPU, e2
 
 LEVEL = 'other'
 EXPLANATION = ('Bounded exhaustive exploration of the Executor query-schedule space, enumerated by z3 (DFS over integer-valued schedule variables '
-               'with blocking constraints; engine E2) and executed natively on the real Executor over the class the real Parser emits for a two-'
-               'sheet workbook. Schedule = one override (target among 7 kinds, value 0/1: 0 makes a formula fail) then two queries (kinds: get_cell '
-               'numeric / get_cell A1+title / get_cells / get_sheet by index / by title; cells: 8 resp. 15). Checked on every schedule: the last '
+               'with blocking constraints; engine E2) and executed natively on the real Executor over the class the real Parser emits for a three-'
+               'sheet workbook. Schedule = one override (target among 8 kinds, value 0/1: 0 makes a formula fail) then two queries (kinds: get_cell '
+               'numeric / get_cell A1+title / get_cells / get_sheet by index / by title; 18 cells each), the stubbed local date advancing in between. Checked on every schedule: the last '
                'query equals the single-cell query on a fresh Executor with the same override (also after a query that raised); overrides and '
                'reported sheet sizes are unchanged by querying; the whole-sheet grid has exactly (used range extended by the override) entries. '
                'The code under test hashes all values, so no value stays symbolic: this is solver-driven enumeration, not abstraction - stated as such.')
@@ -171,8 +171,8 @@ def run(report, tier, seed):
     report.extra['exhaustive'] = all(c['verdict'] == 'holds' for c in report.conditions)
     report.encoded('Executor.get_cell', 'Executor.get_cells', 'Executor.get_sheet', 'Executor.set_cells', 'Executor._set_cells_to_executed_instance',
                    'handle_cell', 'Cell', 'ExcelInPython._cell_preprocessor', 'ExcelInPython.exec_function_in', 'ExcelInPython.get_sheets_size')
-    report.bound('workbook of C04 (2 sheets, 14 cells); one override: 8 targets x value {0,1} x addressing style; first query: 5 kinds x 15 cells; second '
-                 'query: 5 kinds x 15 cells  (8*5*2*18*5*18 = 129 600 schedules, all enumerated)')
+    report.bound('workbook of C04 (3 sheets, 17 cells); one override: 8 targets x value {0,1} x addressing style; first query: 5 kinds x 18 cells; second '
+                 'query: 5 kinds x 18 cells  (8*5*2*18*5*18 = 129 600 schedules, all enumerated)')
     report.assume('outside the claim: more than two queries after the override, several overrides (C04 covers write histories), concurrency',
                   'datetime.date.today() of the generated class is a stub; the date advances by one day between the two queries',
                   'the solver enumerates the finite schedule space (every value is hashed by the code under test, so nothing can stay symbolic); '
